@@ -74,15 +74,29 @@ func c10r1(c *core.Ctx) {
 			})
 		})
 	}
-	writes := core.FindCalls(f, func(i ssa.Instruction) bool {
-		return (core.IsInvoke(i, "net.Conn", "Write") || core.IsInvoke(i, "io.Writer", "Write")) && isElem(core.CallOf(i).Value)
-	})
+	// the writes, directly in the loop or in a helper the loop hands the connection to
+	var writes []ssa.Instruction
+	connOf := map[ssa.Instruction]ssa.Value{}
+	perSite := map[ssa.Instruction]int{}
+	for _, l := range liftedSites(f, func(i ssa.Instruction) bool {
+		return core.IsInvoke(i, "net.Conn", "Write") || core.IsInvoke(i, "io.Writer", "Write")
+	}) {
+		cv := l.val(core.CallOf(l.inner).Value)
+		if !isElem(cv) {
+			continue
+		}
+		if perSite[l.at] == 0 {
+			writes = append(writes, l.at)
+			connOf[l.at] = cv
+		}
+		perSite[l.at]++
+	}
 	if len(writes) == 0 {
 		c.Undecided("fanout-write@"+fname(f), f.Pos(), "no write to an element of ActiveConnections()")
 		return
 	}
 	for _, w := range writes {
-		conn := core.CallOf(w).Value
+		conn := connOf[w]
 		notOrigin := core.CmpFact(func(x, y ssa.Value) (bool, bool) {
 			if (sameValue(x, conn) && y == ssa.Value(pexcept)) || (sameValue(y, conn) && x == ssa.Value(pexcept)) {
 				return false, true
@@ -135,7 +149,7 @@ func c10r1(c *core.Ctx) {
 			sg.Instrs(func(i ssa.Instruction) {
 				for _, w := range writes {
 					if i == w {
-						n++
+						n += perSite[w]
 					}
 				}
 			})
@@ -449,7 +463,7 @@ func c10r4(c *core.Ctx) {
 		if tn, ok := pk.Types.Scope().Lookup("session").(*types.TypeName); ok {
 			if st, ok := tn.Type().Underlying().(*types.Struct); ok {
 				for i := 0; i < st.NumFields(); i++ {
-					if st.Field(i).Name() == "subs" {
+					if p.CanonFieldName(st.Field(i)) == "subs" {
 						m, isMap := st.Field(i).Type().Underlying().(*types.Map)
 						c.Check(isMap && core.TypeIs(m.Key(), tChar), "subs-key-type", st.Field(i).Pos(), "map key type is *characteristic.Characteristic", "the subscription map's key type is not the characteristic pointer")
 					}
